@@ -285,7 +285,7 @@ func main() {
 		"single-threaded driving of raft.Node (StepNode/Advance) as node/raft.go does from one goroutine",
 		"message payload integrity (codec is C16)"}
 	// vacuity guard
-	if obsTotal["states-whose-path-had:leader-seen"] == 0 {
+	if obsTotal["states-whose-path-had:leader-seen"] == 0 && col.NumViolationSigs() == 0 {
 		fmt.Println("INFRA: vacuous exploration (no state with a leader)")
 		col.Finish()
 		os.Exit(2)
